@@ -28,8 +28,13 @@ TAG = "x"
 RECORD = re.compile(r"^\d+(?:\.\d+)?\t(\d+)$")
 
 
-def header_of(base):
-    return "text\tAlways\t%s\n_time\t%s\n" % (base, TAG)
+RULENAME = dict(always="Always", once="Once", update="Update", change="Change")
+SPARSE_BASE = "logS"
+SPARSE_SHARE = "mc.s"
+
+
+def header_of(base, rule="always"):
+    return "text\t%s\t%s\n_time\t%s\n" % (RULENAME[rule], base, TAG)
 
 
 H = len(header_of(BASES[0]))
@@ -72,7 +77,26 @@ def configs(tier):
                                     continue
                                 seen.add(key)
                                 out.append(dict(keep=k, cyc=c, size=s, flush=flush, reuse=reuse, period=period,
-                                                restart=restart, mid=mid, nticks=nticks, logs=nlogs))
+                                                restart=restart, mid=mid, nticks=nticks, logs=nlogs, sparse=None))
+    # Sparse record streams: a once / update / change log on its own share that is written at
+    # tick 0 (creation) and then only at the listed ticks, so the log stays silent across whole
+    # flush intervals; alone in the logger or next to an always log; cycle period below and
+    # above the flush period.
+    rots = [(0, 0.0, 0), (2, 0.5, 0), (2, 0.5, H + 7), (2, 2.0, 0), (2, 2.0, H + 7)]
+    scheds = [[], [5]] + ([[3], [9], [3, 9]] if thorough else [])
+    for rule in ("once", "update", "change"):
+        for writes in scheds:
+            for k, c, s in rots:
+                for flush in flushes:
+                    for reuse in ((False, True) if thorough else (False,)):
+                        for alone in (True, False):
+                            variants = [("none", 0)]
+                            if thorough or (k == 0 and alone):
+                                variants.append(("same", 3))
+                            for restart, mid in variants:
+                                out.append(dict(keep=k, cyc=c, size=s, flush=flush, reuse=reuse, period=1,
+                                                restart=restart, mid=mid, nticks=nticks, logs=0 if alone else 1,
+                                                sparse=dict(rule=rule, writes=writes)))
     return out
 
 
@@ -84,6 +108,8 @@ def cfg_str(c):
         s += " restart=%s@%d" % (c["restart"], c["mid"])
     if c.get("logs", 1) != 1:
         s += " logs=%d" % c["logs"]
+    if c.get("sparse"):
+        s += " sparse=%s,writes@0%s" % (c["sparse"]["rule"], "".join(",%d" % t for t in c["sparse"]["writes"]))
     return s
 
 
@@ -111,10 +137,14 @@ def parse(content, header):
 class LogState:
     """Harness-side bookkeeping for one Log of the logger."""
 
-    def __init__(self, k):
+    def __init__(self, k, base, rule="always", share="mc.x"):
         self.k = k
-        self.base = BASES[k]
-        self.header = header_of(self.base)
+        self.base = base
+        self.rule = rule
+        self.share = share
+        self.header = header_of(base, rule)
+        self.expected = []        # record numbers the rule has promised so far (reference)
+        self.ref = None           # checks.c22.Ref for sparse rules
         self.paths = []           # [main, copy 01, ...]
         self.stretches = []       # content of the main file at each rotation (observed)
         self.scanned = 0          # journal entries already scanned for rotations
@@ -130,7 +160,14 @@ class Run:
         self.viol = []            # (group, sortkey, example, what, replay)
         self.part = core.Part()
         self.seq = 0              # records are numbered by the send that writes them
-        self.logs = [LogState(k) for k in range(cfg.get("logs", 1))]
+        self.logs = [LogState(k, BASES[k]) for k in range(cfg.get("logs", 1))]
+        self.sparse = cfg.get("sparse")
+        self.sval = 1             # value of the sparse share (its tick-0 write)
+        if self.sparse:
+            from checks import c22
+            ls = LogState(len(self.logs), SPARSE_BASE, self.sparse["rule"], SPARSE_SHARE)
+            ls.ref = c22.Ref(self.sparse["rule"], "one")      # the statement's reference for the rule
+            self.logs.append(ls)
         self.schedule = []
 
     # ---- bookkeeping
@@ -147,10 +184,15 @@ class Run:
         from mc import vfs
         from ioflo.base import globaling as g
         c = self.cfg
-        w = vfs.LogWorld(self.fs, g.ALWAYS, fields=["n"], share_init=[("n", self.seq)], tick=TICK, base=BASES[0], tag=TAG,
+        rules = dict(always=g.ALWAYS, once=g.ONCE, update=g.UPDATE, change=g.CHANGE)
+        init = {"mc.x": self.seq, SPARSE_SHARE: self.sval}
+        first = self.logs[0]
+        w = vfs.LogWorld(self.fs, rules[first.rule], fields=["n"], share_init=[("n", init[first.share])], tick=TICK,
+                         base=first.base, tag=TAG, share_name=first.share,
                          logger_kw=dict(flushPeriod=c["flush"], keep=c["keep"], cyclePeriod=c["cyc"],
                                         fileSize=c["size"], reuse=c["reuse"]),
-                         more_logs=[(b, g.ALWAYS, ["n"]) for b in BASES[1:len(self.logs)]])
+                         more_logs=[(ls.base, rules[ls.rule], ["n"], ls.share, [("n", init[ls.share])])
+                                    for ls in self.logs[1:]])
         for k, log in enumerate(w.logs):
             self.instrument(log, k)
         fs = self.fs
@@ -220,7 +262,24 @@ class Run:
                 ctl = "START"
             w.store.changeStamp(now)
             self.seq += 1
-            w.share.update(n=self.seq)
+            if "mc.x" in w.shares:
+                w.shares["mc.x"].update(n=self.seq)
+            wrote = bool(self.sparse and t in self.sparse["writes"])
+            if wrote:
+                self.sval = t + 1
+                w.shares[SPARSE_SHARE].update(n=self.sval)       # before the logger in this tick
+            for ls in self.logs:                                   # what the rule promises for this send
+                if ls.ref is None:
+                    ls.expected.append(self.seq)
+                else:
+                    before = len(ls.ref.records)
+                    if t:
+                        ls.ref.apply("T")
+                    if wrote:
+                        ls.ref.apply("wd")
+                    ls.ref.apply(dict(START="START", RUN="R", STOP="STOP")[ctl])
+                    if len(ls.ref.records) > before:
+                        ls.expected.append(self.sval)
             self.fs.mark("send", control=ctl, seq=self.seq, tick=t)
             try:
                 w.send(dict(START=g.START, RUN=g.RUN, STOP=g.STOP)[ctl])
@@ -278,19 +337,19 @@ class Run:
                                % (os.path.basename(p), content[:90], cfg_str(c), where), dict(files=files))
                 return True
             allseq.extend(seqs)
-        want_last = self.seq
-        lo = allseq[0] if allseq else want_last + 1
-        if allseq != list(range(lo, want_last + 1)) or (c["keep"] == 0 and lo != 1):
+        exp = ls.expected                  # the promised record stream so far (numbers increase)
+        lo = allseq[0] if allseq else None
+        if allseq != exp[len(exp) - len(allseq):] or (c["keep"] == 0 and allseq != exp):
             dup = len(set(allseq)) != len(allseq)
             self.violation("stream|%s" % ("duplicate" if dup else "gap-or-order"), where,
-                           "retained files of %s read oldest to newest hold records %r; %d records were written (%s, %s)"
-                           % (ls.base, allseq, want_last, cfg_str(c), where), dict(files=files))
+                           "retained files of %s read oldest to newest hold records %r; the record stream so far is %r (%s, %s)"
+                           % (ls.base, allseq, exp, cfg_str(c), where), dict(files=files))
             return True
         # newest file = everything since the last rotation; copy k = k-th most recent stretch
         main = contents[0]
         if ls.stretches:
             older = [s for st in ls.stretches for s in parse(st, ls.header)[1]]
-            since = list(range((max(older) if older else 0) + 1, want_last + 1))
+            since = [v for v in exp if v > (max(older) if older else 0)]
             got = parse(main, ls.header)[1] if main else []
             if got != since:
                 self.violation("newest-file", where,
@@ -304,7 +363,7 @@ class Run:
                                    % (k, ls.base, contents[k], k, ls.stretches[-k], cfg_str(c), where), dict(files=files))
                     return True
         nrot = len(ls.stretches)
-        self.part.outcome("clean:%s" % ("no rotation" if nrot == 0 else "rotated, nothing dropped" if lo == 1 else "rotated, oldest dropped"))
+        self.part.outcome("clean:%s" % ("no rotation" if nrot == 0 else "rotated, nothing dropped" if allseq == exp else "rotated, oldest dropped"))
         return False
 
     # ---- oracle on every crash point
@@ -317,8 +376,8 @@ class Run:
             for p in ls.paths:
                 owner[p] = ls
         recs = {}                                     # ino -> [seq] written to it
-        written = [0] * len(self.logs)                # highest record number handed to write(), per log
-        flushed_upto = [0] * len(self.logs)           # ... at the most recent completed flush/close of that log
+        written = [[] for _ in self.logs]             # record numbers handed to write(), per log
+        flushed = [set() for _ in self.logs]          # ... before the most recent completed flush/close of that log
         dropped = [set() for _ in self.logs]          # records rotated out of the oldest slot (by design)
         send = None
         snap_of = dict((j, k) for k, j in enumerate(fs.snap_at))
@@ -327,7 +386,7 @@ class Run:
                 if args[0] == "send":
                     send = info
                 elif args[0] == "flushed":
-                    flushed_upto[info["log"]] = written[info["log"]]
+                    flushed[info["log"]] = set(written[info["log"]])
                 continue
             ino = info.get("ino")
             ls = owner.get(args[0]) if args else None
@@ -336,7 +395,7 @@ class Run:
                     m = RECORD.match(ln)
                     if m:
                         recs.setdefault(ino, []).append(int(m.group(1)))
-                        written[ls.k] = max(written[ls.k], int(m.group(1)))
+                        written[ls.k].append(int(m.group(1)))
             elif kind == "rename" and ls is not None:
                 over = info.get("over")
                 if over is not None and recs.get(over):
@@ -347,7 +406,7 @@ class Run:
                                        "rename %s -> %s destroyed a copy holding records %r that is not the oldest (%s)"
                                        % (os.path.basename(args[0]), os.path.basename(args[1]), recs[over], cfg_str(c)))
                         return
-            need = [set(range(1, flushed_upto[k] + 1)) - dropped[k] for k in range(len(self.logs))]
+            need = [flushed[k] - dropped[k] for k in range(len(self.logs))]
             anyneed = any(need)
             snap = fs.snaps[snap_of[j]]
             opname = kind if kind != "flush" else ("flush" if not args[1] else "close-flush")
